@@ -11,7 +11,10 @@ def run(ctx):
         args = ["-seqs", "40", "-ops", "500"] if ctx.tier == "thorough" else ["-seqs", "8", "-ops", "400"]
         lines, tr = seqlib.run_seq(ctx, args)
         if lines is not None:
-            seqlib.analyse(ctx, lines, tr, ok_drv, "C08", status_filter=lambda w: "stale" in w or "badchoice" in w)
+            # replies that CARRY handles are compared in full (READDIRPLUS entries, LOOKUP, the creating procedures): a handle
+            # that denotes another object, or an entry given a handle it must not have, is a violation whatever the status
+            seqlib.analyse(ctx, lines, tr, ok_drv, "C08", status_filter=lambda w: "stale" in w or "badchoice" in w,
+                           always_ops={"readdirplus", "lookup", "create", "mkdir", "symlink"})
     vlib.finish(
         ctx, "proof",
         "theorems: generations never decrease and strictly increase at every allocation and free; a dead handle stays dead after any history; "
